@@ -739,6 +739,14 @@ def gen_inst(outdir, seed, k):
     g.add("get_g1", "", "j", [("global.get", G1)], "get")
     g.add("set_g1", "j", "", [("local.get", 0), ("global.set", G1)], "set")
     g.add("get_g2", "", "i", [("global.get", G2), "i32.reinterpret_f32"], "get")
+    # one function exported under two names, and (with a start function) the imported host function exported again
+    g2_index = m.n_imp_funcs + len(m.funcs) - 1
+    m.exports.append(("get_g2_alias", 0, g2_index))
+    g.table.append(("get_g2_alias", "_i", "get", ""))
+    extra_export_names = ["get_g2_alias"]
+    if has_start:
+        m.exports.append(("hook_again", 0, hook))
+        extra_export_names.append("hook_again")
     g.add("started", "", "i", [("global.get", GS)], "get")
     g.add("load8", "i", "i", [("local.get", 0), ("i32.load8_u", 0)], "load")
     g.add("store8", "ii", "", [("local.get", 0), ("local.get", 1), ("i32.store8", 0)], "store")
@@ -752,6 +760,7 @@ def gen_inst(outdir, seed, k):
             cstr = lambda t: '"' + "".join(c if c.isalnum() or c in "_.-$ " else "\\x%02x" % ord(c) for c in t) + '"'
             f.write("#define N_%s_MOD %s\n#define N_%s %s\n" % (key.upper(), cstr(names[key][0]), key.upper(), cstr(names[key][1])))
     with open(os.path.join(outdir, "inst_desc.inc"), "w") as f:
+        f.write("static const char* const D_FUNC_EXPORT_NAMES = \"%s\";\n" % " ".join([t[0] for t in g.table if t[0] not in extra_export_names] + extra_export_names))
         f.write("static const char* const D_IMPORT_NAMES = \"%s\";\n" % " ".join("%s=%s/%s" % (k2, names[k2][0], names[k2][1]) for k2 in ("mem", "tab", "goff", "ginit")))
         f.write("static const int D_MEM_IMPORTED = %d, D_TAB_IMPORTED = %d, D_HAS_START = %d, D_USE_GOFF = %d, D_USE_GINIT = %d, D_SHARED = %d;\n" % (mem_imported, tab_imported, has_start, use_goff, use_ginit, shared))
         f.write("static const unsigned D_MEM_MIN = %d, D_MEM_MAX = %d, D_GOFF = %d, D_G0 = %du, D_G2_BITS = %du, D_HOOK_ADDR = %d;\n" % (mem_min, mem_max, goff_val, g0_init, g2_bits, hook_addr))
